@@ -191,80 +191,68 @@ Proof.
   - intros r r' Hd Hm. rewrite (Nat.div_mod r ny), (Nat.div_mod r' ny) by lia. now rewrite Hd, Hm.
 Qed.
 
-(* ------------------------------------------------------------------ segment sampler: what does hold *)
+(* ------------------------------------------------------------------ segment sampler *)
 Section Segment.
-  Variables (rnd : nat -> nat -> R) (size : nat) (x1 y1 x2 y2 : R).
+  Variables (rnd : nat -> nat -> R) (size : nat) (x1 y1 x2 y2 : R) (random : bool).
   Hypothesis Hrnd : unit_draws rnd.
   Hypothesis Hsize : (1 <= size)%nat.
 
-  (* the stratum centres (i + 1/2) / size *)
-  Definition centred (st : nat -> R) : Prop := forall i, (i < size)%nat -> st i = (INR i + 1 / 2) / INR size.
-
-  Lemma segment_init_centred random : centred (generator_2dspatial_segment_init ROps size (x1, y1) (x2, y2) random).
+  (* the stratum centres (i + 1/2) / size, however the source spells the linspace end points *)
+  Lemma segment_centres i a b :
+    (i < size)%nat -> a = 1 / INR size * (1 / 2) -> b - a = (INR size - 1) * (1 / INR size) ->
+    linspace ROps a b size i = (INR i + 1 / 2) / INR size.
   Proof.
-    intros i Hi. unfold generator_2dspatial_segment_init. cbv zeta.
-    assert (Hp : 0 < INR size) by (apply lt_0_INR; lia).
-    r_ops. rewrite (linspace_R _ _ size i (1 / INR size)); auto; field; lra.
+    intros Hi Ha Hb. assert (Hp : 0 < INR size) by (apply lt_0_INR; lia).
+    rewrite (linspace_R a b size i (1 / INR size)) by auto. rewrite Ha. cbn [F ROps]. field. lra.
   Qed.
 
-  (* with random = False the centres are never rebound: every draw is the grid of centres *)
-  Lemma segment_step_nonrandom cur st :
-    centred st ->
-    (forall i, (i < size)%nat ->
-       let out := fst (fst (generator_2dspatial_segment_step ROps rnd size (x1, y1) (x2, y2) false cur st)) in
-       segment_stratum x1 y1 x2 y2 size i (fst out i) (snd out i))
-    /\ centred (snd (generator_2dspatial_segment_step ROps rnd size (x1, y1) (x2, y2) false cur st)).
-  Proof.
-    intros Hc. unfold generator_2dspatial_segment_step. cbv zeta. cbn [fst snd]. split; [|exact Hc].
-    intros i Hi. unfold vmapl. r_ops. exists (st i). rewrite (Hc i Hi).
-    assert (Hp : 0 < INR size) by (apply lt_0_INR; lia).
-    repeat split; try reflexivity.
-    - apply Rmult_le_compat_r; [left; now apply Rinv_0_lt_compat | lra].
-    - apply Rmult_le_compat_r; [left; now apply Rinv_0_lt_compat | lra].
-  Qed.
-
-  Lemma segment_all_draws_nonrandom k cur i :
+  Lemma segment_step_out cur st i :
     (i < size)%nat ->
-    let out := draw (generator_2dspatial_segment_step ROps rnd size (x1, y1) (x2, y2) false) k cur
-                    (generator_2dspatial_segment_init ROps size (x1, y1) (x2, y2) false) in
+    let out := fst (fst (generator_2dspatial_segment_step ROps rnd size (x1, y1) (x2, y2) random cur st)) in
+    segment_stratum x1 y1 x2 y2 size i (fst out i) (snd out i).
+  Proof.
+    intros Hi. unfold generator_2dspatial_segment_step. cbv zeta.
+    assert (Hp : 0 < INR size) by (apply lt_0_INR; lia).
+    destruct (Hrnd cur i) as [Hu0 Hu1]. set (u := rnd cur i) in *.
+    destruct random; cbn [fst snd]; unfold vmapl, vmap2, vmapr, segment_stratum; r_ops; fold u;
+      rewrite (segment_centres i) by (auto; field; lra).
+    - exists ((INR i + u) / INR size). repeat split.
+      + apply Rmult_le_compat_r; [left; now apply Rinv_0_lt_compat | lra].
+      + apply Rmult_le_compat_r; [left; now apply Rinv_0_lt_compat | lra].
+      + f_equal. f_equal. field. lra.
+      + f_equal. f_equal. field. lra.
+    - exists ((INR i + 1 / 2) / INR size). repeat split.
+      + apply Rmult_le_compat_r; [left; now apply Rinv_0_lt_compat | lra].
+      + apply Rmult_le_compat_r; [left; now apply Rinv_0_lt_compat | lra].
+  Qed.
+
+  Lemma segment_all_draws k cur i :
+    (i < size)%nat ->
+    let out := draw (generator_2dspatial_segment_step ROps rnd size (x1, y1) (x2, y2) random) k cur
+                    (generator_2dspatial_segment_init ROps size (x1, y1) (x2, y2) random) in
     segment_stratum x1 y1 x2 y2 size i (fst out i) (snd out i).
   Proof.
     intros Hi.
-    apply (draw_invariant (generator_2dspatial_segment_step ROps rnd size (x1, y1) (x2, y2) false) centred
-             (fun out => segment_stratum x1 y1 x2 y2 size i (fst out i) (snd out i))).
-    - intros c s Hs. destruct (segment_step_nonrandom c s Hs) as [H1 H2]. split; [apply H1, Hi | exact H2].
-    - apply segment_init_centred.
-  Qed.
-
-  (* with random = True the FIRST draw is still stratified ... *)
-  Lemma segment_first_draw_random cur i :
-    (i < size)%nat ->
-    let out := draw (generator_2dspatial_segment_step ROps rnd size (x1, y1) (x2, y2) true) 0 cur
-                    (generator_2dspatial_segment_init ROps size (x1, y1) (x2, y2) true) in
-    segment_stratum x1 y1 x2 y2 size i (fst out i) (snd out i).
-  Proof.
-    intros Hi. unfold draw. cbn [run]. unfold generator_2dspatial_segment_step. cbv zeta. cbn [fst snd].
-    pose proof (segment_init_centred true i Hi) as Hc.
-    set (st := generator_2dspatial_segment_init ROps size (x1, y1) (x2, y2) true) in *.
-    unfold vmapl, vmap2, vmapr. r_ops. rewrite Hc.
-    destruct (Hrnd cur i) as [Hu0 Hu1]. set (u := rnd cur i) in *.
-    assert (Hp : 0 < INR size) by (apply lt_0_INR; lia).
-    exists ((INR i + u) / INR size). repeat split.
-    - apply Rmult_le_compat_r; [left; now apply Rinv_0_lt_compat | lra].
-    - apply Rmult_le_compat_r; [left; now apply Rinv_0_lt_compat | lra].
-    - f_equal. f_equal. field. lra.
-    - f_equal. f_equal. field. lra.
-  Qed.
-
-  (* ... and all later draws at least stay on the LINE through the end points *)
-  Lemma segment_step_collinear random cur st i :
-    let out := fst (fst (generator_2dspatial_segment_step ROps rnd size (x1, y1) (x2, y2) random cur st)) in
-    exists s, fst out i = x1 + (x2 - x1) * s /\ snd out i = y1 + (y2 - y1) * s.
-  Proof.
-    unfold generator_2dspatial_segment_step. cbv zeta. destruct random; cbn [fst snd]; unfold vmapl; r_ops;
-      eexists; split; reflexivity.
+    apply (draw_invariant (generator_2dspatial_segment_step ROps rnd size (x1, y1) (x2, y2) random) (fun _ => True)
+             (fun out => segment_stratum x1 y1 x2 y2 size i (fst out i) (snd out i))); auto.
+    intros c s _. split; auto. apply segment_step_out, Hi.
   Qed.
 End Segment.
+
+(* a point of the i-th segment stratum lies on the segment, between its end points *)
+Lemma segment_stratum_on_segment x1 y1 x2 y2 n i x y :
+  (1 <= n)%nat -> (i < n)%nat -> segment_stratum x1 y1 x2 y2 n i x y ->
+  exists s, 0 <= s <= 1 /\ x = x1 + (x2 - x1) * s /\ y = y1 + (y2 - y1) * s.
+Proof.
+  intros Hn Hi [s [[H0 H1] [Hx Hy]]]. exists s. split; [|split; assumption].
+  assert (Hp : 0 < INR n) by (apply lt_0_INR; lia).
+  assert (Hi' : INR i + 1 <= INR n) by (rewrite <- S_INR; apply le_INR; lia).
+  assert (Hi0 : 0 <= INR i) by apply pos_INR.
+  split.
+  - apply Rle_trans with (INR i / INR n); [|exact H0]. apply Rmult_le_pos; [exact Hi0 | left; now apply Rinv_0_lt_compat].
+  - apply Rle_trans with ((INR i + 1) / INR n); [exact H1|].
+    apply Rmult_le_reg_r with (INR n); [exact Hp|]. unfold Rdiv. rewrite Rmult_assoc, Rinv_l by lra. lra.
+Qed.
 
 (* ------------------------------------------------------------------ non-vacuity *)
 Example s1d_premises_satisfiable :
@@ -282,3 +270,13 @@ Example rect_premises_satisfiable :
     (draw (generator_2dspatial_rectangle_step ROps (fun _ _ => 0) (2%nat, 3%nat) 0 1 0 6 true) 5 0
           (generator_2dspatial_rectangle_init ROps (2%nat, 3%nat) 0 1 0 6 true)).
 Proof. apply rect_all_draws; try lia; try lra. intros c j; lra. Qed.
+
+Example segment_premises_satisfiable :
+  unit_draws (fun _ _ => 3 / 4) /\ (1 <= 1)%nat /\
+  fst (draw (generator_2dspatial_segment_step ROps (fun _ _ => 3 / 4) 1 (0, 0) (1, 0) true) 2 0
+            (generator_2dspatial_segment_init ROps 1 (0, 0) (1, 0) true)) 0%nat = 3 / 4.
+Proof.
+  split; [intros c j; lra|]. split; [lia|].
+  unfold draw. cbn [run]. unfold generator_2dspatial_segment_step. cbv zeta. cbn [fst snd].
+  unfold vmap2, vmapr, vmapl, linspace. cbn [Nat.eqb]. r_ops. cbn [INR]. field.
+Qed.
